@@ -1381,6 +1381,16 @@ def make_check_C09(tier):
         if tier == "quick" and len(spec["mods"]) < 2 and not (sid.startswith("text/jcc") or sid.startswith("callgraph")):
             continue
         chk.add(sid, h_batch_vs_single, params=dict(spec=spec), timeout=900)
+    # a later patch of the same block names a label whose reference an earlier modification of that block left pending
+    # in the cache (end-of-block label of a block that was split and joined again, start label of a block cut at its head)
+    import copy as _c
+    ins, dele = rewrite_shapes.ins, rewrite_shapes.dele
+    for mods in ([ins("b1", 1, "mov"), ins("b1", 2, "jmp:e1")], [ins("b1", 1, "mov"), ins("b1", 2, "call:e1")],
+                 [dele("b1", 0, 1), ins("b1", 2, "jmp:s1")], [ins("b1", 1, "label"), ins("b1", 2, "jmp:s1b")],
+                 [dele("b1", 1, 2), ins("b1", 3, "jmp:e1")], [ins("b1", 1, "trail_label"), ins("b1", 2, "jmp:e1")]):
+        spec = rewrite_shapes.text_layout("o")
+        spec["mods"] = _c.deepcopy(mods)
+        chk.add("pending-ref/%s" % rewrite_shapes.mods_name(mods), h_batch_vs_single, params=dict(spec=spec), timeout=900)
     chk.bounds = dict(BOUNDS)
     chk.assumptions = list(ASSUME) + [
         "one-at-a-time application runs from the highest listing position to the lowest (same-offset requests in reverse "
